@@ -1028,15 +1028,11 @@ package spine
 //@ func (*DeviceLocal).NotifySubscribers
 //@   requires r != nil && featureAddress != nil
 //@   let S = r.subscriptionManager.SubscriptionsOnFeature(*featureAddress)
-//@   ensures[C08,C07] one-each: ntn == old(ntn) + len(S)
-//@   ensures[C08,C07] to-subscriber: forall j int :: {nts[old(ntn) + j]} 0 <= j && j < len(S) ==> nts[old(ntn) + j] == old(S[j].ClientFeature.Device().Sender())
-//@   ensures[C08,C07] from-server-feature: forall j int :: {ntsrc[old(ntn) + j]} 0 <= j && j < len(S) ==> ntsrc[old(ntn) + j] == old(S[j].ServerFeature.Address())
-//@   ensures[C08,C07] to-client-feature: forall j int :: {ntdst[old(ntn) + j]} 0 <= j && j < len(S) ==> ntdst[old(ntn) + j] == old(S[j].ClientFeature.Address())
-//@   ensures[C08,C07] carries-cmd: forall j int :: {ntcmd[old(ntn) + j]} 0 <= j && j < len(S) ==> ntcmd[old(ntn) + j] == cmd
-//@   ensures[C08,C07] log-older: (forall d int :: {nts[d]} d < old(ntn) ==> nts[d] == old(nts)[d]) && (forall d int :: {ntsrc[d]} d < old(ntn) ==> ntsrc[d] == old(ntsrc)[d]) && (forall d int :: {ntdst[d]} d < old(ntn) ==> ntdst[d] == old(ntdst)[d]) && (forall d int :: {ntcmd[d]} d < old(ntn) ==> ntcmd[d] == old(ntcmd)[d])
+//@   ensures[C08,C07] one-each: ntn == old(ntn) + len(S) && forall j int :: 0 <= j && j < len(S) ==> nts[old(ntn) + j] == old(S[j].ClientFeature.Device().Sender()) && ntsrc[old(ntn) + j] == old(S[j].ServerFeature.Address()) && ntdst[old(ntn) + j] == old(S[j].ClientFeature.Address()) && ntcmd[old(ntn) + j] == cmdKey(cmd)
+//@   ensures[C08,C07] log-older: forall d int :: d < old(ntn) ==> nts[d] == old(nts)[d] && ntsrc[d] == old(ntsrc)[d] && ntdst[d] == old(ntdst)[d] && ntcmd[d] == old(ntcmd)[d]
 //@   modifies outmisc, held, @NTLOG
 //@   loop 0 invariant count: ntn == pre(ntn) + $k && $s == S
-//@   loop 0 invariant each: forall j int :: 0 <= j && j < $k ==> nts[pre(ntn) + j] == old(S[j].ClientFeature.Device().Sender()) && ntsrc[pre(ntn) + j] == old(S[j].ServerFeature.Address()) && ntdst[pre(ntn) + j] == old(S[j].ClientFeature.Address()) && ntcmd[pre(ntn) + j] == cmd
+//@   loop 0 invariant each: forall j int :: 0 <= j && j < $k ==> nts[pre(ntn) + j] == old(S[j].ClientFeature.Device().Sender()) && ntsrc[pre(ntn) + j] == old(S[j].ServerFeature.Address()) && ntdst[pre(ntn) + j] == old(S[j].ClientFeature.Address()) && ntcmd[pre(ntn) + j] == cmdKey(cmd)
 //@   loop 0 invariant older: forall d int :: d < pre(ntn) ==> nts[d] == pre(nts)[d] && ntsrc[d] == pre(ntsrc)[d] && ntdst[d] == pre(ntdst)[d] && ntcmd[d] == pre(ntcmd)[d]
 
 // announcing a local entity change: one NotifySubscribers call on the node management feature (fan-out: above)
